@@ -177,7 +177,8 @@ func releaserExists(fn string, self int64, all []gdump) (exists bool, decided bo
 			return strings.Contains(f, "protocol/downloader.(*Downloader).") ||
 				strings.Contains(f, "protocol.(*ProtocolManager).synchronise") ||
 				strings.Contains(f, "protocol.(*ProtocolManager).Stop") ||
-				strings.Contains(f, "protocol.(*ProtocolManager).handleMsg.func") // "go pm.synchronise(p)" not yet running
+				strings.Contains(f, "protocol.(*ProtocolManager).handleMsg.func") || // "go pm.synchronise(p)" not yet running
+				strings.Contains(f, "protocol.(*ProtocolManager).syncer.func")
 		}
 	case strings.HasPrefix(fn, "fetcher.(*Fetcher).Notify") || strings.HasPrefix(fn, "fetcher.(*Fetcher).Enqueue") ||
 		strings.HasPrefix(fn, "fetcher.(*Fetcher).Filter"):
